@@ -58,10 +58,10 @@ impl Case {
         let rng = Rng::new(run_seed);
         let mut wr = rng.fork("world.cfg");
         let cfg = match property {
-            "C16" => WorldCfg { min_k: wr.below(3) as u16, max_extra_k: 1, max_ctx: 2 },
-            "C17" => WorldCfg { min_k: 0, max_extra_k: 0, max_ctx: 0 },
-            _ if model.is_some() => WorldCfg { min_k: wr.range(1, 2) as u16, max_extra_k: 0, max_ctx: 3 },
-            _ => WorldCfg { min_k: wr.range(1, 3) as u16, max_extra_k: 1, max_ctx: 4 },
+            "C16" => WorldCfg { min_k: wr.below(3) as u16, max_extra_k: 1, max_ctx: 2, allow_restrict: false },
+            "C17" => WorldCfg { min_k: 0, max_extra_k: 0, max_ctx: 0, allow_restrict: false },
+            _ if model.is_some() => WorldCfg { min_k: wr.range(1, 2) as u16, max_extra_k: 0, max_ctx: 3, allow_restrict: true },
+            _ => WorldCfg { min_k: wr.range(1, 3) as u16, max_extra_k: 1, max_ctx: 4, allow_restrict: true },
         };
         let world = match model {
             Some(m) => {
@@ -124,6 +124,12 @@ impl Case {
                     }
                 }
             }
+        }
+        // world: no caller-side colour restriction
+        if self.world.restrict.is_some() {
+            let mut w = self.world.clone();
+            w.restrict = None;
+            out.push(Case { property: self.property.clone(), world: w, scenario: self.scenario.clone() });
         }
         // world: fewer spare variable sets
         if self.world.k > 0 {
